@@ -15,7 +15,7 @@ from ..fa import FA
 from ..loader import AnalysisError
 from .valeq import check_typed_identity, check_json_bytes, check_enum_distinct
 from .ladders import extract_ladder, check_ladder_order, repo_subclass_pairs
-from .fresh import flow_nodes, alternatives, value_cases, param_rooted, return_cases, at_of, attr_writes, guarded_cases
+from .fresh import flow_nodes, alternatives, value_cases, param_rooted, return_cases, at_of, attr_writes, guarded_cases, static_value as _static
 
 MC = "serialization.MementoCodec"
 
@@ -286,6 +286,31 @@ def _none_cases(fa: FA, what):
     return _simplify(none_conds), others
 
 
+def _template(e):
+    """A.str_template, also for `'<sep>'.join((a, b, ...))` over a literal sequence and str(x) wrappers of the parts."""
+    if isinstance(e, ast.Call) and A.call_attr(e) == "join" and isinstance(e.func, ast.Attribute) and A.const_str(e.func.value) is not None \
+            and len(e.args) == 1 and not e.keywords and isinstance(e.args[0], (ast.List, ast.Tuple)) and e.args[0].elts \
+            and not any(isinstance(x, ast.Starred) for x in e.args[0].elts):
+        sep = A.const_str(e.func.value).replace("{", "{{").replace("}", "}}")
+        return sep.join("{}" for _ in e.args[0].elts), list(e.args[0].elts)
+    return A.str_template(e)
+
+
+def _int_const(n):
+    """The integer a constant expression denotes: a literal, or len('<literal>')."""
+    if isinstance(n, ast.Constant) and isinstance(n.value, int) and not isinstance(n.value, bool):
+        return n.value
+    if isinstance(n, ast.Call) and isinstance(n.func, ast.Name) and n.func.id == "len" and len(n.args) == 1 and A.const_str(n.args[0]) is not None:
+        return len(A.const_str(n.args[0]))
+    return None
+
+
+def _once(c):
+    """Is the split call limited to ONE cut: rsplit(sep, 1) / rsplit(sep, maxsplit=1)?"""
+    mx = c.args[1] if len(c.args) == 2 else A.kwarg(c, "maxsplit") if len(c.args) == 1 else None
+    return mx is not None and _int_const(mx) == 1
+
+
 def _last_cut(dv: FA, e, at, param, sep):
     """Which side of the LAST `sep` of the parameter string does `e` denote: 'before' / 'after' / None."""
     x = dv.expand(e, at)
@@ -299,12 +324,12 @@ def _last_cut(dv: FA, e, at, param, sep):
 
     if isinstance(x, ast.Subscript) and is_state(x.value) and isinstance(x.slice, ast.Slice) and x.slice.step is None:
         lo, up = x.slice.lower, x.slice.upper
-        if (lo is None or (isinstance(lo, ast.Constant) and lo.value == 0)) and up is not None and is_rfind(up):
+        if (lo is None or _int_const(lo) == 0) and up is not None and is_rfind(up):
             return "before"
         if up is None and isinstance(lo, ast.BinOp) and isinstance(lo.op, ast.Add):
             a_, b_ = lo.left, lo.right
             n = len(sep)
-            if (is_rfind(a_) and isinstance(b_, ast.Constant) and b_.value == n) or (is_rfind(b_) and isinstance(a_, ast.Constant) and a_.value == n):
+            if (is_rfind(a_) and _int_const(b_) == n) or (is_rfind(b_) and _int_const(a_) == n):
                 return "after"
     # state.rpartition(sep)[0] / [2] ; state.rsplit(sep, 1)[0] / [1]
     if isinstance(x, ast.Subscript) and isinstance(x.value, ast.Call) and isinstance(x.value.func, ast.Attribute) and is_state(x.value.func.value) \
@@ -312,7 +337,7 @@ def _last_cut(dv: FA, e, at, param, sep):
         c = x.value
         if c.func.attr == "rpartition" and len(c.args) == 1:
             return {0: "before", 2: "after", -1: "after"}.get(x.slice.value)
-        if c.func.attr == "rsplit" and len(c.args) == 2 and A.norm(c.args[1]) == "1":
+        if c.func.attr == "rsplit" and _once(c):
             return {0: "before", 1: "after", -1: "after"}.get(x.slice.value)
     # key, _, version = state.rpartition(sep)
     if isinstance(e, ast.Name):
@@ -324,7 +349,7 @@ def _last_cut(dv: FA, e, at, param, sep):
                 i = names.index(e.id)
                 if c.func.attr == "rpartition" and len(c.args) == 1 and len(names) == 3:
                     return {0: "before", 2: "after"}.get(i)
-                if c.func.attr == "rsplit" and len(c.args) == 2 and A.norm(c.args[1]) == "1" and len(names) == 2:
+                if c.func.attr == "rsplit" and _once(c) and len(names) == 2:
                     return {0: "before", 1: "after"}.get(i)
     return None
 
@@ -339,7 +364,7 @@ def check_versioned_key_codec(ck, R4):
     # join: every non-None result is <key> '#' <version> of the parameter
     ok4 = bool(e_vals)
     for (v, at) in e_vals:
-        tm = A.str_template(ev.expand(v, at))
+        tm = _template(ev.expand(v, at))
         ok4 = ok4 and tm is not None and tm[0] == "{}#{}" and len(tm[1]) == 2 and _is_chain(ev, tm[1][0], at, ep, ["key"]) and _is_chain(ev, tm[1][1], at, ep, ["version"])
     ck.ob(R4, ev.key(None, "join"), ok4, "key#version" if ok4 else "versioned keys are not written as '{}#{}'.format(key, version)", ev.where())
     # split: every non-None result is VersionedDataSourceKey(key=<before the last '#'>, version=<after it>)
@@ -375,10 +400,9 @@ def check_reference_resolved_afresh(ck, R):
     cparams = [p for p in callee.params if p not in ("self", "cls")] if callee is not None else []
     for c in df.calls("from_qualified_name"):
         want = {"qualified_name": "qualifiedName", "partial_args": "partialArgs", "partial_kwargs": "partialKwargs", "parameter_names": "parameterNames"}
-        given = _call_args(c, cparams) or {k.arg: k.value for k in c.keywords if k.arg}
-        at = at_of(df, c)
+        given = _bound_args(df, c, cparams) or {k.arg: (k.value, at_of(df, c)) for k in c.keywords if k.arg}
         for kw, field in want.items():
-            v = given.get(kw)
+            v, at = given.get(kw, (None, None))
             ok = v is not None and field in _keys_in_flow(df, v, at)
             ck.ob(R, df.key(c, "state-field:" + field), ok, "%s is taken from state['%s']" % (kw, field) if ok else
                   "from_qualified_name is not given %s from state['%s']" % (kw, field), df.where(c))
@@ -447,36 +471,25 @@ def _site_args(fa: FA, call, params):
 
 
 def _carried(fa: FA, value, at, param):
-    """Does the value handed on at a site carry what the function received as `param`: every value it may
-    hold is computed from the parameter, except stand-ins used only where the parameter is absent (None / empty).
+    """Does the value handed on at a site carry what the function received as `param`: on every path to the site the
+    value it holds there is computed from the parameter, except stand-ins used only where the parameter is absent
+    (None / empty) — whether the stand-in is chosen by a conditional expression, `param or default`, an if/else, or a
+    default assigned first and overridden where the parameter is present.
     -> (ok, the offending case or None)"""
-    absent = {("%s is None" % param, True), (param, False)}
+    from .fresh import path_cases
+    absent = {("%s is None" % param, True), (param, False), ("len(%s) == 0" % param, True), ("0 == len(%s)" % param, True)}
+    cases = path_cases(fa, value, at, also=(param,))
+    if cases is None:
+        raise AnalysisError("%s: too many paths to tell what `%s` holds" % (fa.qual, A.short(value, 40)))
     derived = 0
-    memo = {}
-
-    def only_when_absent(node_id):
-        """Is the cfg node reached only where the parameter is absent?"""
-        if node_id not in memo:
-            conds = fa.conditions(node_id)
-            if conds is None:
-                raise AnalysisError("%s: too many paths to tell when `%s` is used" % (fa.qual, A.short(value, 40)))
-            memo[node_id] = bool(conds) and all(c & absent for c in conds)
-        return memo[node_id]
-
-    for (case, a_, lits) in guarded_cases(fa, value, at):
-        if case[0] == "param":
-            if case[1] == param:
-                derived += 1
-                continue
-            dep = False
-        else:
-            dep = ("param:" + param) in fa.df.deps(case[1], a_)
-        if dep:
+    for (v, a_, conds) in cases:
+        if (isinstance(v, ast.Name) and v.id == param and all(d.kind == "param" for d in fa.df.reaching(a_, v.id))) \
+                or ("param:" + param) in fa.df.deps(v, a_):
             derived += 1
             continue
-        if set(lits) & absent or only_when_absent(at) or (a_ != at and only_when_absent(a_)):
+        if conds and all(c & absent for c in conds):
             continue
-        return False, (case[1] if case[0] == "expr" else ast.Name(id=case[1], ctx=ast.Load()))
+        return False, v
     return derived > 0, None
 
 
@@ -554,35 +567,6 @@ def check_reference_fields_carried(ck, R):
 
 
 # ---- argument tags ----------------------------------------------------------------------------------------
-def _static(fa: FA, e, at, depth=0):
-    """The literal a table name denotes: a local bound once, a module-level NAME = <literal>, a class-level
-    attribute read as cls.NAME / self.NAME / <Class>.NAME; wrappers tuple(..) / list(..) / frozenset(..) / set(..) /
-    dict(..) of one literal are looked through.  Anything else is returned as it is."""
-    if depth > 6 or e is None:
-        return e
-    if isinstance(e, ast.Name):
-        if fa.df.is_local(e.id):
-            ds = fa.df.reaching(at, e.id) if at is not None else []
-            if len(ds) == 1 and ds[0].kind == "assign" and ds[0].value is not None:
-                return _static(fa, ds[0].value, ds[0].node, depth + 1)
-            return e
-        v = fa.fi.module.assigns.get(e.id)
-        return _static(fa, v, None, depth + 1) if v is not None else e
-    if isinstance(e, ast.Attribute) and isinstance(e.value, ast.Name):
-        cls = getattr(fa.fi, "cls", None)
-        cnode = getattr(cls, "node", None)
-        if cnode is not None and (e.value.id in ("cls", "self") or e.value.id == cnode.name):
-            for st in cnode.body:
-                if isinstance(st, ast.Assign) and any(isinstance(t, ast.Name) and t.id == e.attr for t in st.targets):
-                    return _static(fa, st.value, None, depth + 1)
-                if isinstance(st, ast.AnnAssign) and isinstance(st.target, ast.Name) and st.target.id == e.attr and st.value is not None:
-                    return _static(fa, st.value, None, depth + 1)
-        return e
-    if isinstance(e, ast.Call) and isinstance(e.func, ast.Name) and e.func.id in ("tuple", "list", "frozenset", "set", "dict", "OrderedDict") and len(e.args) == 1 and not e.keywords:
-        return _static(fa, e.args[0], at, depth + 1)
-    return e
-
-
 def _elements(fa: FA, e, at):
     """Members of a literal collection (keys for a dict, also through .keys()); None when it is not one."""
     if isinstance(e, ast.Call) and A.call_attr(e) == "keys" and not e.args and isinstance(e.func, ast.Attribute):
@@ -674,6 +658,105 @@ def _helper_results(fa: FA, e):
     return (h, out) if out else None
 
 
+def _unrolled(fa: FA) -> FA:
+    """The function with every loop over a LITERAL table written out row by row (`for typ, kind in ((bool, B), (str, S)): if
+    isinstance(obj, typ): return ...` becomes the if-chain it stands for), so that a table-driven dispatch is decided like
+    the ladder it replaces.  A loop is written out when its rows are known, its variables are not reassigned in the body
+    and it leaves early only by `return` / `raise` — or its body is one `if <test>: ...; break`, which becomes an elif chain.
+    Returns `fa` itself when there is nothing to write out."""
+    import copy
+    from ..loader import FuncInfo
+    changed = [False]
+
+    def own_jumps(stmts):
+        out = []
+        for st in stmts:
+            for n in ast.walk(st) if not isinstance(st, (ast.For, ast.While, ast.AsyncFor)) else []:
+                if isinstance(n, (ast.Break, ast.Continue)):
+                    out.append(n)
+        return out
+
+    def rows_of(loop):
+        ids = fa.nodes(loop.iter) or fa.nodes(loop)
+        if not ids or loop.orelse:
+            return None
+        tg = loop.target
+        if isinstance(tg, ast.Name):
+            it = _static(fa, loop.iter, ids[0])
+            if isinstance(it, (ast.Tuple, ast.List)) and it is not None and not any(isinstance(x, ast.Starred) for x in it.elts):
+                return [tg.id], [[x] for x in it.elts]
+            return None
+        if not (isinstance(tg, (ast.Tuple, ast.List)) and all(isinstance(t, ast.Name) for t in tg.elts)):
+            return None
+        rows = _literal_rows(fa, loop.iter, ids[0])
+        if rows is None or any(len(r) != len(tg.elts) for r in rows):
+            return None
+        return [t.id for t in tg.elts], rows
+
+    def subst(stmts, names, row):
+        env = dict(zip(names, row))
+
+        class T(ast.NodeTransformer):
+            def visit_Name(self, n):
+                if isinstance(n.ctx, ast.Load) and n.id in env:
+                    return ast.copy_location(copy.deepcopy(env[n.id]), n)
+                return n
+
+        return [T().visit(copy.deepcopy(st)) for st in stmts]
+
+    def block(stmts):
+        out = []
+        for st in stmts:
+            for fld in ("body", "orelse", "finalbody"):
+                if isinstance(getattr(st, fld, None), list) and not isinstance(st, (ast.FunctionDef, ast.AsyncFunctionDef, ast.ClassDef, ast.Lambda)):
+                    setattr(st, fld, block(getattr(st, fld)))
+            for h in getattr(st, "handlers", []) or []:
+                h.body = block(h.body)
+            done = False
+            if isinstance(st, ast.For):
+                orig = origin.get(id(st))
+                rr = rows_of(orig) if orig is not None else None
+                if rr is not None and 0 < len(rr[1]) <= 40:
+                    names, rows = rr
+                    stores = {n.id for b in st.body for n in ast.walk(b) if isinstance(n, ast.Name) and isinstance(n.ctx, (ast.Store, ast.Del))}
+                    jumps = own_jumps(st.body)
+                    if not (stores & set(names)):
+                        if not jumps:
+                            for row in rows:
+                                out += subst(st.body, names, row)
+                            done = True
+                        elif len(st.body) == 1 and isinstance(st.body[0], ast.If) and not st.body[0].orelse and len(jumps) == 1 \
+                                and isinstance(jumps[0], ast.Break) and st.body[0].body[-1] is jumps[0]:
+                            chain = None
+                            for row in reversed(rows):
+                                (rung,) = subst(st.body, names, row)
+                                rung.body = rung.body[:-1] or [ast.copy_location(ast.Pass(), rung)]
+                                rung.orelse = [chain] if chain is not None else []
+                                chain = rung
+                            out.append(chain)
+                            done = True
+            if done:
+                changed[0] = True
+            else:
+                out.append(st)
+        return out
+
+    node2 = copy.deepcopy(fa.node)
+    # rows are resolved on the ORIGINAL loops (they have CFG nodes): pair the copies with their originals
+    origin = {}
+    for a, b in zip(ast.walk(node2), ast.walk(fa.node)):
+        if isinstance(a, ast.For):
+            origin[id(a)] = b
+    node2.body = block(node2.body)
+    if not changed[0]:
+        return fa
+    ast.fix_missing_locations(node2)
+    fi = fa.fi
+    fi2 = FuncInfo(fi.module, node2, fi.qual, fi.cls, fi.parent)
+    fi2.nested = fi.nested
+    return FA(fa.ck, fi2)
+
+
 def _members(fa: FA, e, at, depth=0):
     """ResultType members the expression may denote."""
     if depth > 8:
@@ -690,6 +773,10 @@ def _members(fa: FA, e, at, depth=0):
         return set()  # a `found = None` initial value: None has no .name, so it never becomes a tag
     if isinstance(e, ast.Subscript) and isinstance(e.value, ast.Name) and e.value.id == "ResultType" and A.const_str(e.slice):
         return {A.const_str(e.slice)}
+    if isinstance(e, ast.Subscript) and isinstance(e.value, ast.Name) and e.value.id == "ResultType" and not isinstance(e.slice, ast.Slice):
+        return _tags(fa, e.slice, at, depth + 1)  # the member whose name is the computed string
+    if isinstance(e, ast.Call) and isinstance(e.func, ast.Name) and e.func.id == "getattr" and len(e.args) == 2 and A.norm(e.args[0]) == "ResultType":
+        return _tags(fa, e.args[1], at, depth + 1)
     if isinstance(e, ast.IfExp):
         return _members(fa, e.body, at, depth + 1) | _members(fa, e.orelse, at, depth + 1)
     if isinstance(e, ast.Name):
@@ -737,6 +824,16 @@ def _tags(fa: FA, e, at, depth=0):
         for (v, a_) in hr[1]:
             out |= _tags(hr[0], v, a_, depth + 1)
         return out
+    # a name glued together from pieces ('array_' + suffix, f'array_{suffix}'): every combination of what the pieces may be
+    parts = A.str_parts(e) if isinstance(e, (ast.BinOp, ast.JoinedStr, ast.Call)) else None
+    if parts and any(k == "expr" for k, _v in parts) and not (len(parts) == 1 and parts[0][1] is e):
+        acc = {""}
+        for (k, v) in parts:
+            vs = {v} if k == "lit" else _tags(fa, v, at, depth + 1)
+            acc = {a + b for a in acc for b in vs}
+            if len(acc) > 400:
+                raise AnalysisError("%s: too many combinations in the tag expression `%s`" % (fa.qual, A.short(e, 50)))
+        return acc
     raise AnalysisError("%s: cannot tell which argument tag `%s` is" % (fa.qual, A.short(e, 50)))
 
 
@@ -842,12 +939,14 @@ def check(ck):
             fq = [c for c in dec.calls("from_qualified_name")]
             callee = ck.repo.try_func("reference.FunctionReference.from_qualified_name")
             cparams = [p for p in callee.params if p not in ("self", "cls")] if callee is not None else []
-            given = (_call_args(fq[0], cparams) if len(fq) == 1 else None) or {}
+            bound = (_bound_args(dec, fq[0], cparams) if len(fq) == 1 else None) or {}
+            given = {p_: v_ for p_, (v_, _a) in bound.items()}
+            given_at = {p_: a_ for p_, (_v, a_) in bound.items()}
             okq = len(fq) == 1 and sorted(given) == ["parameter_names", "partial_args", "partial_kwargs", "qualified_name"]
             if len(fq) == 1:
-                ctor_by_pair[name] = (dec, given, at_of(dec, fq[0]), {})
+                ctor_by_pair[name] = (dec, given, at_of(dec, fq[0]), given_at)
             if len(fq) == 1:
-                _check_field_correspondence(ck, R2, enc, d, dec, fq[0], {p_: _keys_in_flow(dec, v_, at_of(dec, fq[0])) for p_, v_ in given.items()}, "the reference")
+                _check_field_correspondence(ck, R2, enc, d, dec, fq[0], {p_: _keys_in_flow(dec, v_, given_at[p_]) for p_, v_ in given.items()}, "the reference")
             ck.ob(R2, dec.key(None, "from-qualified-name"), okq, "the reference is rebuilt from its qualified name, partials and parameter names" if okq else
                   "decode_fn_reference does not pass (qualified_name, partial_args, partial_kwargs, parameter_names)", dec.where())
 
@@ -935,6 +1034,18 @@ def check(ck):
                     raise AnalysisError("%s: `%s` tests the argument tag against something other than a literal collection" % (da.qual, A.short(n, 60)))
                 for e in elts:
                     tags_in |= _tags(da, e, None if e not in list(ast.walk(r)) else at)
+        # TABLE[<tag>] / TABLE.get(<tag>): the tags the literal table is keyed by are the ones this lookup serves
+        look = None
+        if isinstance(n, ast.Subscript) and isinstance(n.ctx, ast.Load) and not isinstance(n.slice, ast.Slice) and da.nodes(n) and is_type_field(n.slice, da.nodes(n)[0]):
+            look = n.value
+        elif isinstance(n, ast.Call) and A.call_attr(n) == "get" and isinstance(n.func, ast.Attribute) and 1 <= len(n.args) <= 2 and da.nodes(n) \
+                and is_type_field(n.args[0], da.nodes(n)[0]):
+            look = n.func.value
+        if look is not None:
+            tbl = _static(da, look, da.nodes(n)[0])
+            if isinstance(tbl, ast.Dict) and tbl is not look and all(k is not None for k in tbl.keys):
+                for e in tbl.keys:
+                    tags_in |= _tags(da, e, None if e not in list(ast.walk(look)) else da.nodes(n)[0])
     ck.ob(R3, ea.key(None, "arg-shape"), shapes_ok, "arguments are {type, value} objects" if shapes_ok else
           "an argument encoding has fields other than type/value", ea.where())
     ck.ob(R3, da.key(None, "tags"), tags_out == tags_in and FN_REF_TAG in tags_out, "%d argument tags agree (incl. the function-reference tag)" % len(tags_out) if tags_out == tags_in and FN_REF_TAG in tags_out else
@@ -981,8 +1092,9 @@ def check(ck):
 
     # ---- R5
     pairs = repo_subclass_pairs(ck)
-    lad = extract_ladder(ea.node)
-    n = check_ladder_order(ck, R5, ea, lad, pairs, "wire-encode")
+    eu = _unrolled(ea)  # (a dispatch written as a loop over a literal table of types is decided as the if-chain it stands for)
+    lad = extract_ladder(eu.node)
+    n = check_ladder_order(ck, R5, eu, lad, pairs, "wire-encode")
     ck.need(n >= 2, "encode_arg ladder: bool/int and datetime/date not comparable (%d)" % n)
     ck.run(check_typed_identity, ck, "C11.R6", ("serialization", "reference"))
     ck.run(check_enum_distinct, ck, "C11.R3")
